@@ -138,7 +138,27 @@ func run(w *core.Worker, c Case) {
 			}
 		}
 		last := i == len(c.Ops)-1
-		if last || (c.Full && (c.Every <= 1 || i%c.Every == 0)) {
+		observeNow := last || (c.Full && (c.Every <= 1 || i%c.Every == 0))
+		if observeNow && op.K != "get" {
+			// read-your-write FIRST, before any other lookup touches the tree (a lookup may itself
+			// change internal state - caches, lazily cleaned nodes): the key of this very step
+			var v int
+			var ok bool
+			if p := core.Catch(func() { v, ok = t.Get(op.Key) }); p != nil {
+				w.Violation("btree.panic:get", fmt.Sprintf("step %d: Get(%d) right after %+v panicked: %v", i, op.Key, op, p))
+				return
+			}
+			mv, has := model[op.Key]
+			if ok != has || (has && v != mv) {
+				sig := "btree.get-value"
+				if ok && !has {
+					sig = "btree.get-finds-removed-key"
+				}
+				w.Violation(sig, fmt.Sprintf("step %d: Get(%d) right after %+v = (%d,%v), model (%d,%v)", i, op.Key, op, v, ok, mv, has))
+				return
+			}
+		}
+		if observeNow {
 			good := true
 			if p := core.Catch(func() { good = observe(i) }); p != nil {
 				w.Violation("btree.panic:observe", fmt.Sprintf("observation after step %d panicked: %v", i, p))
@@ -169,7 +189,7 @@ func run(w *core.Worker, c Case) {
 func TestProp(t *testing.T) {
 	r := core.Start(t, "C10")
 	defer r.Finish()
-	r.Rule("cases = Put (fresh value per step)/Remove/Get sequences on btree.BTree[int,int] checked against a map model: Height <= log2(max(1, distinct keys ever inserted)) after every step, Size, IsEmpty, Get of every probe key and the full Traverse sequence after the last step (sweep) or periodically (random/bulk); non-trivial = the sequence overwrote or removed a present key; btree-orders: insertion orders built from ascending/descending runs over shuffled contiguous key blocks, zigzag and middle-out orders; distinct by hash of the ops")
+	r.Rule("cases = Put (fresh value per step)/Remove/Get sequences on btree.BTree[int,int] checked against a map model: Height <= log2(max(1, distinct keys ever inserted)) after every step, Size, IsEmpty, Get of the key just written/removed before any other lookup, then Get of every probe key and the full Traverse sequence, after the last step (sweep) or every 1st/2nd/5th/11th step (random) or periodically (bulk); non-trivial = the sequence overwrote or removed a present key; btree-orders: insertion orders built from ascending/descending runs over shuffled contiguous key blocks, zigzag and middle-out orders; distinct by hash of the ops")
 
 	var alpha []Op
 	for k := 0; k <= 5; k++ {
@@ -186,7 +206,7 @@ func TestProp(t *testing.T) {
 		rng := r.Rand("c10-random")
 		for i := 0; i < nRand; i++ {
 			keys := []int{8, 24, 100}[rng.Intn(3)]
-			c := Case{Full: true, Keys: keys}
+			c := Case{Full: true, Keys: keys, Every: []int{1, 1, 2, 5, 11}[rng.Intn(5)]}
 			for n := rng.Range(8, 120); n > 0; n-- {
 				k := rng.Intn(keys)
 				switch x := rng.Intn(10); {
